@@ -40,6 +40,15 @@ def gen_prog(rnd):
             if any(getattr(s, "name", None) and s.name.lower() == nm.lower() for s in f.stmts if s.k == "assign"):
                 continue
             f.stmts.insert(rnd.randrange(1, len(f.stmts) + 1), apm.assign(nm, apm.num(rnd.choice(vals))))
+    if rnd.random() < 0.25:
+        # many compilation units (linked files + included files): 8-14 small included files, each with its own symbols
+        n = rnd.randrange(8, 15)
+        host_file = rnd.choice(prog.files)
+        for j in range(n):
+            nm = f"part{j}.mac"
+            body = [apm.simple(".even"), apm.label(f"pl{j}"), apm.data(".word", apm.num(j)), apm.assign(f"pk{j}", apm.num(rnd.choice(vals)))]
+            prog.aux[nm] = apm.SrcFile(nm, body)
+            host_file.stmts.append(apm.include(nm))
     try:
         ref = apm.Ref(prog).run()
     except (apm.RefError, apm.Unmodelled):
